@@ -8,6 +8,7 @@ FLAV = {
     "c": "Favour changes to the less obvious code paths the property depends on (error handling, clean-up, the second of two similar branches, helper modules the main path calls into), and changes that only show after a particular earlier event (an interrupted run, an earlier invocation, a leftover file).",
     "d": "Favour subtle changes: ones that leave the common path byte-identical and diverge only in a rarely taken branch, at larger scale, for particular size relations, or after a particular earlier event; assume a diligent reviewer will run the obvious spot checks (a handful of sizes, one crash, one re-run) and try to produce something those spot checks would miss while it still genuinely breaks the property as stated.",
     "e": "Favour changes in modules the property depends on indirectly (shared helpers, formatters, parsers, data classes, naming/sorting utilities, logging set-up) rather than at the most obvious site, and changes introduced while 'improving' performance or robustness (caching, memoisation, batching writes, reusing objects or file handles, catching exceptions).",
+    "f": "Favour changes outside the most obvious function: the command-line wiring (how options are passed down, defaults, early exits), helper functions shared by several callers, module-level state, the second or third output file rather than the first, the less common input or output format, the error path rather than the success path. Each change must still break the property as stated and need something specific to show.",
 }
 T = """You are helping to evaluate a verification harness by writing *seeded defects* for an open-source Python project (sanger-tol/agp-tpf-utils: CLI utilities for AGP/TPF genome assembly files with a streaming FASTA indexer/writer). This is authorised mutation-testing work on a scratch copy; nothing you write is ever merged.
 
